@@ -1366,6 +1366,19 @@ func checkCachePerRoutine(c *Ctx, rule string) {
 				if fnv, ok := stripConv(a).(*ssa.Function); ok {
 					rout = fnv.Name()
 				}
+				// a wrapper around the routine (validated("blocks", c.blocks)): the routine it is given
+				if wc, ok := stripConv(a).(*ssa.Call); ok && rout == "" {
+					if _, isFn := a.Type().Underlying().(*types.Signature); isFn {
+						for _, wa := range wc.Call.Args {
+							if _, isFn := wa.Type().Underlying().(*types.Signature); !isFn {
+								continue
+							}
+							for _, g := range getterFuncs(wa) {
+								rout = g.Name()
+							}
+						}
+					}
+				}
 			}
 			if f == nil || rout == "" {
 				c.Violation(rule, fmt.Sprintf("%s/cache.get#%d", fnName(fn), n), call.Pos(), "cannot identify the cache field or the fetch routine of this cached fetch")
